@@ -156,6 +156,33 @@ def float_class(value: float, name: str | None = None) -> str:
 
 
 # ------------------------------------------------------------------------------------------------
+class ParseTimeout(Exception):
+    """The code under test did not return within the (generous) per-call budget."""
+
+
+class time_limit:
+    """Context manager: raise ParseTimeout if the body runs longer than `seconds` (wall clock).
+    A budget hit is reported as inconclusive by the callers, never as a violation."""
+
+    def __init__(self, seconds: float = 10.0):
+        self.seconds = seconds
+
+    def _fire(self, *_):
+        raise ParseTimeout()
+
+    def __enter__(self):
+        import signal
+        self._old = signal.signal(signal.SIGALRM, self._fire)
+        signal.setitimer(signal.ITIMER_REAL, self.seconds)
+        return self
+
+    def __exit__(self, *exc):
+        import signal
+        signal.setitimer(signal.ITIMER_REAL, 0)
+        signal.signal(signal.SIGALRM, self._old)
+        return False
+
+
 class Rejected(Exception):
     """The constructors / verifier under test reject the value (documented error)."""
 
